@@ -2,6 +2,8 @@ package sym
 
 import (
 	"fmt"
+	"os"
+	"strings"
 	"go/token"
 	"go/types"
 
@@ -393,10 +395,7 @@ func (ex *Exec) boundsSplit(st *State, idx *smt.Term, n int, what string) []stru
 
 func (ex *Exec) indexAddr(st *State, fr *Frame, in *ssa.IndexAddr) bool {
 	x := ex.get(st, fr, in.X)
-	idx := ex.get(st, fr, in.Index).(*smt.Term)
-	if idx.Sort.W < 64 {
-		idx = ex.C.Sext(idx, 64)
-	}
+	idx := ex.widenIndex(ex.get(st, fr, in.Index).(*smt.Term), in.Index.Type())
 	var n int
 	var mk func(i int) Ptr
 	switch v := x.(type) {
@@ -464,10 +463,7 @@ func (ex *Exec) resume(st *State, conts []struct {
 
 func (ex *Exec) index(st *State, fr *Frame, in *ssa.Index) bool {
 	x := ex.get(st, fr, in.X)
-	idx := ex.get(st, fr, in.Index).(*smt.Term)
-	if idx.Sort.W < 64 {
-		idx = ex.C.Sext(idx, 64)
-	}
+	idx := ex.widenIndex(ex.get(st, fr, in.Index).(*smt.Term), in.Index.Type())
 	switch v := x.(type) {
 	case Array:
 		return ex.readIndexed(st, in, idx, len(v), func(i int) Value { return v[i] })
@@ -533,10 +529,7 @@ func (ex *Exec) checkHashable(st *State, k Value) {
 func (ex *Exec) lookup(st *State, fr *Frame, in *ssa.Lookup) bool {
 	x := ex.get(st, fr, in.X)
 	if s, ok := x.(Str); ok {
-		idx := ex.get(st, fr, in.Index).(*smt.Term)
-		if idx.Sort.W < 64 {
-			idx = ex.C.Sext(idx, 64)
-		}
+		idx := ex.widenIndex(ex.get(st, fr, in.Index).(*smt.Term), in.Index.Type())
 		return ex.readIndexed(st, in, idx, len(s.B), func(i int) Value { return s.B[i] })
 	}
 	C := ex.C
@@ -700,11 +693,7 @@ func (ex *Exec) sliceOp(st *State, fr *Frame, in *ssa.Slice) bool {
 		if v == nil {
 			return ex.C.BVConst(uint64(def), 64)
 		}
-		t := ex.get(st, fr, v).(*smt.Term)
-		if t.Sort.W < 64 {
-			t = ex.C.Sext(t, 64)
-		}
-		return t
+		return ex.widenIndex(ex.get(st, fr, v).(*smt.Term), v.Type())
 	}
 	var length, capacity int
 	switch v := x.(type) {
@@ -943,6 +932,28 @@ func (ex *Exec) builtin(st *State, name string, args []Value, call ssa.CallInstr
 	case "recover":
 		return Iface{}
 	case "print", "println":
+		if os.Getenv("GOSYM_DEBUG") != "" { // harness debugging aid: concrete operands are shown
+			var parts []string
+			for _, a := range args {
+				switch v := a.(type) {
+				case Str:
+					if s, ok := concreteBytes(v); ok {
+						parts = append(parts, s)
+					} else {
+						parts = append(parts, "<symbolic string>")
+					}
+				case *smt.Term:
+					if v.IsConst() {
+						parts = append(parts, fmt.Sprint(int64(v.Val)))
+					} else {
+						parts = append(parts, "<symbolic>")
+					}
+				default:
+					parts = append(parts, fmt.Sprintf("<%T>", a))
+				}
+			}
+			fmt.Fprintln(os.Stderr, "harness println:", strings.Join(parts, " "))
+		}
 		return nil
 	case "min", "max":
 		res := args[0].(*smt.Term)
@@ -968,4 +979,26 @@ func (ex *Exec) builtin(st *State, name string, args []Value, call ssa.CallInstr
 	}
 	ex.unsupported(st, "builtin "+name)
 	return nil
+}
+
+// widenIndex extends an index or slice bound of a narrow integer type to 64 bits according to its signedness.
+func (ex *Exec) widenIndex(t *smt.Term, typ types.Type) *smt.Term {
+	if t.Sort.W >= 64 {
+		return t
+	}
+	if b, ok := typ.Underlying().(*types.Basic); ok && b.Info()&types.IsUnsigned != 0 {
+		return ex.C.Zext(t, 64)
+	}
+	return ex.C.Sext(t, 64)
+}
+
+func concreteBytes(v Str) (string, bool) {
+	b := make([]byte, len(v.B))
+	for i, t := range v.B {
+		if !t.IsConst() {
+			return "", false
+		}
+		b[i] = byte(t.Val)
+	}
+	return string(b), true
 }
